@@ -1116,6 +1116,108 @@ def check_bspline(c):
     return None
 
 
+# ---------------------------------------------------------------- oracle: other doors into the same calculus
+def gen_entry(rng: random.Random, tier: str):
+    for mode in FD_MODES + [None]:
+        for D in (2, 3):
+            for _ in range(_n(tier, 2, 16, 6)):
+                N = rng.randint(1, 3)
+                yield {"mode": mode, "D": D, "N": N, "shape": [rng.randint(5, 8) for _ in range(D)],
+                       "seed": rng.randrange(1 << 30), "idtype": rng.choice(["int32", "int64"]),
+                       "h": [[rng.choice([0.5, 0.75, 1.5, 2.5, 0.3]) for _ in range(D)] for _ in range(N)],
+                       "hform": rng.choice(["scalar", "vecD", "matND", "none"]),
+                       "axes": rng.choice(["grid", "world", "cube", "cube_corners"])}
+
+
+def check_entry(c):
+    """(a) integer-valued affine fields stored in an INTEGER dtype: every derivative function returns what it returns
+    for the same numbers stored as float32 (the spacing is a physical length, not a count, whatever the data type);
+    (b) FlowFields.curl / FlowField.curl / modules.Curl = analytic curl of an affine field given in the field's axes."""
+    from deepali.core.grid import Axes, Grid
+    from deepali.data import FlowFields
+    from deepali.modules import Curl
+    D, N, shape, mode = c["D"], c["N"], c["shape"], c["mode"]
+    mname = mode or "default"
+    g = torch.Generator().manual_seed(c["seed"])
+    A = torch.randint(-3, 4, (N, D, D), generator=g)
+    t = torch.randint(-5, 6, (N, D), generator=g)
+    idx = index_coords(shape).long()                                 # (D, *shape), x first
+    ui = torch.einsum("nij,j...->ni...", A, idx) + t.reshape(N, D, *[1] * D)
+    ui = ui.to(getattr(torch, c["idtype"]))
+    uf = ui.float()
+    h = c["h"]
+    sp = {"scalar": h[0][0], "vecD": h[0], "matND": h, "none": None}[c["hform"]]
+    kw = dict(mode=mode, spacing=sp)
+
+    def same(name, a, b):
+        if isinstance(a, dict):
+            if set(a) != set(b):
+                return (f"C12:int-dtype:{name}:{mname}", f"{name}: keys {sorted(a)} for integer data, {sorted(b)} for float data")
+            for k in a:
+                r = same(name, a[k], b[k])
+                if r:
+                    return r
+            return None
+        if a.shape != b.shape or not torch.isfinite(a.double()).all() or \
+                float((a.double() - b.double()).abs().max()) > 1e-5 * max(1.0, float(b.abs().max())):
+            return (f"C12:int-dtype:{name}:{mname}",
+                    f"{name}(mode={mname}, spacing={sp}) of {c['idtype']} data differs from the same data as float32 by "
+                    f"{float((a.double() - b.double()).abs().max()) if a.shape == b.shape else 'shape'}")
+        return None
+
+    for name, fn in (("jacobian_matrix", U.jacobian_matrix), ("divergence", U.divergence), ("curl", U.curl),
+                     ("flow_derivatives", lambda x, **k: U.flow_derivatives(x, order=1, **k)),
+                     ("spatial_derivatives", lambda x, **k: spatial_derivatives(x, order=1, **k))):
+        r = same(name, fn(ui, **kw), fn(uf, **kw))
+        if r:
+            return r
+    if mode in FD4:
+        for ax in range(D):
+            for spv in ([h[0][ax]], [h[b][ax] for b in range(N)]):
+                a_ = finite_differences(ui, ax, mode=mode, spacing=spv[0] if len(spv) == 1 else spv)
+                b_ = finite_differences(uf, ax, mode=mode, spacing=spv[0] if len(spv) == 1 else spv)
+                r = same("finite_differences", a_, b_)
+                if r:
+                    return r
+    # (b) data-type / module doors to curl: axis-aligned grids with per-item spacing; v = A x + t with x the grid point
+    # coordinates in the field's own axes, so curl v = (A32 - A23, A13 - A31, A21 - A12) whatever the axes are
+    axes = Axes(c["axes"])
+    grids = [Grid(size=list(reversed(shape)), spacing=h[b], align_corners=(axes is Axes.CUBE_CORNERS)) for b in range(N)]
+    step = {"grid": lambda b: [1.0] * D, "world": lambda b: h[b],
+            "cube": lambda b: [2 / n for n in reversed(shape)],
+            "cube_corners": lambda b: [2 / (n - 1) for n in reversed(shape)]}[c["axes"]]
+    Af = A.double() / 2
+    x = torch.stack([index_coords(shape) * torch.tensor(step(b), dtype=torch.float64).reshape(D, *[1] * D) for b in range(N)])
+    v = (torch.einsum("nij,nj...->ni...", Af, x) + t.double().reshape(N, D, *[1] * D)).float()
+    if D == 2:
+        want = (Af[:, 1, 0] - Af[:, 0, 1]).reshape(N, 1, 1, 1)
+    else:
+        want = torch.stack([Af[:, 2, 1] - Af[:, 1, 2], Af[:, 0, 2] - Af[:, 2, 0], Af[:, 1, 0] - Af[:, 0, 1]], 1).reshape(N, 3, 1, 1, 1)
+    reg = (slice(None), slice(None)) + _region(mode, D)
+    tolc = 2e-4 * max(1.0, float(v.abs().max()) / min(min(step(b)) for b in range(N)))
+    try:
+        batch = FlowFields(v, grids, axes)
+        cu = batch.curl(mode=mode)
+        one = batch[N - 1].curl(mode=mode)
+    except Exception as e:
+        return (f"C12:FlowFields.curl:raises:D{D}", f"FlowFields.curl(mode={mname}) of a {D}-D flow field batch raises "
+                f"{type(e).__name__}: {str(e)[:90]}")
+    if type(cu).__name__ != "ImageBatch" or list(cu.shape) != [N, want.shape[1]] + shape or \
+            any(a != b for a, b in zip(cu.grids(), grids)):
+        return (f"C12:FlowFields.curl:type:D{D}", f"result {type(cu).__name__} of shape {list(cu.shape)}")
+    e = float((cu.tensor().double()[reg] - want).abs().max())
+    if e > tolc:
+        return (f"C12:FlowFields.curl:value:{c['axes']}:{mname}", f"FlowFields.curl of an affine field in {c['axes']} axes: error {e:.3e}")
+    e = float((one.tensor().double().unsqueeze(0)[reg] - want[N - 1:N]).abs().max())
+    if type(one).__name__ != "Image" or e > tolc:
+        return (f"C12:FlowField.curl:value:{c['axes']}:{mname}", f"FlowField.curl: {type(one).__name__}, error {e:.3e}")
+    m = Curl(mode=mode, spacing=torch.tensor([step(b) for b in range(N)], dtype=torch.float64))
+    e = float((m(v).double()[reg] - want).abs().max())
+    if e > tolc:
+        return (f"C12:modules.Curl:value:{mname}", f"modules.Curl differs from the analytic curl by {e:.3e}")
+    return None
+
+
 ORACLES = [
     Oracle("affine", gen_affine, check_affine, doc="Jacobian / determinant (+-identity) / divergence / curl / Lie bracket of affine "
            "fields = analytic values; every point for forward_central_backward / prewitt / sobel (and second derivatives of the "
@@ -1129,12 +1231,16 @@ ORACLES = [
     Oracle("scaling", gen_scaling, check_scaling, doc="spacing division: value(h) = value(1) / prod h^order for scalar / per-axis / "
            "per-batch-item forms"),
     Oracle("bspline", gen_bspline, check_bspline, doc="mode='bspline' = analytic derivatives of the cubic spline (independent basis function)"),
+    Oracle("entry_points", gen_entry, check_entry, doc="side doors: integer-dtype fields give the values of the same numbers "
+           "stored as float32 (jacobian_matrix, divergence, curl, flow_/spatial_derivatives, finite_differences with fractional "
+           "spacings); FlowFields.curl / FlowField.curl / modules.Curl = analytic curl of affine fields in grid / world / cube axes"),
 ]
 
 
 def search_cases(disagreements: List[dict]):
     """Disagreeing correspondence cases become oracle cases with the same mode / D / shape / spacing."""
-    extra: Dict[str, List[dict]] = {"affine": [], "quadratic": [], "subset": [], "det": [], "scaling": [], "bspline": []}
+    extra: Dict[str, List[dict]] = {"affine": [], "quadratic": [], "subset": [], "det": [], "scaling": [], "bspline": [],
+                                    "entry_points": []}
     for dsg in disagreements[:40]:
         c = dsg["case"]
         if "shape" not in c or "D" not in c or len(c["shape"]) != c["D"] or min(c["shape"]) < 5:
